@@ -23,6 +23,9 @@ pub struct DecodedFile {
     pub index_size: u64,
     /// following the index offsets yields the same content, eof_offset points to the EndOfFile block
     pub index_ok: bool,
+    /// the index lists the offset of EVERY block of the file, as the worked example of FORMAT.md does ("The offsets for
+    /// the file with ID 1 will be Off0, Off2, Off3 and Off5"), and not only the first block of each contiguous run
+    pub index_lists_every_block: bool,
 }
 
 #[derive(Clone, Debug)]
@@ -219,8 +222,17 @@ pub fn decode(a: &[u8], privs: &[StaticSecret], chunk: usize, block: usize) -> R
     let mut contents: BTreeMap<u64, Vec<u8>> = BTreeMap::new();
     let mut hashes: BTreeMap<u64, [u8; 32]> = BTreeMap::new();
     let mut eof_pos: BTreeMap<u64, usize> = BTreeMap::new();
+    let mut block_pos: BTreeMap<u64, Vec<u64>> = BTreeMap::new();
     loop {
         let at = b.p;
+        // (id of the block that starts here, for the per-block reading of the index)
+        if let Some(t) = fd.get(at) {
+            if matches!(*t, 0x00 | 0x01 | 0xFF) {
+                if let Some(idb) = fd.get(at + 1..at + 9) {
+                    block_pos.entry(u64::from_le_bytes(idb.try_into().unwrap())).or_default().push(at as u64);
+                }
+            }
+        }
         match b.u8()? {
             0x00 => {
                 let id = b.u64()?;
@@ -346,7 +358,7 @@ pub fn decode(a: &[u8], privs: &[StaticSecret], chunk: usize, block: usize) -> R
             }
             ok = ok && started && via == content;
         }
-        if files.insert(name.clone(), DecodedFile { content, hash_ok, index_size: *size, index_ok: ok }).is_some() {
+        if files.insert(name.clone(), DecodedFile { content, hash_ok, index_size: *size, index_ok: ok, index_lists_every_block: block_pos.get(id) == Some(offs) }).is_some() {
             return Err(format!("name {name:?} used by two ids"));
         }
     }
@@ -366,6 +378,7 @@ pub enum Blk {
     End { id: u64 },
 }
 
+#[derive(Clone, Copy)]
 pub struct EncodeParams<'a> {
     pub layers: u8,
     pub recipients: &'a [PublicKey],
@@ -375,6 +388,9 @@ pub struct EncodeParams<'a> {
     pub quality: u32,
     pub chunk: usize,
     pub block: usize,
+    /// index convention: false = one offset per contiguous run of blocks (what the library writes), true = one offset
+    /// per block (what the worked example of FORMAT.md lists)
+    pub index_per_block: bool,
 }
 
 pub fn encode(blocks: &[Blk], p: &EncodeParams) -> Vec<u8> {
@@ -392,7 +408,7 @@ pub fn encode(blocks: &[Blk], p: &EncodeParams) -> Vec<u8> {
             Blk::Start { id, .. } | Blk::Content { id, .. } | Blk::End { id } => *id,
         };
         // a new contiguous run of blocks of this file starts here
-        if current != Some(id) {
+        if current != Some(id) || p.index_per_block {
             offsets.entry(id).or_default().push(at);
             current = Some(id);
         }
@@ -525,7 +541,7 @@ pub fn self_test() -> Result<(), String> {
         Blk::End { id: 0 },
     ];
     let sk = StaticSecret::from([9u8; 32]);
-    let p = EncodeParams { layers: ENCRYPT | COMPRESS, recipients: &[PublicKey::from(&sk)], key: [1; 32], nonce: [2; 8], ephemeral: [3; 32], quality: 5, chunk: 64, block: 128 };
+    let p = EncodeParams { layers: ENCRYPT | COMPRESS, recipients: &[PublicKey::from(&sk)], key: [1; 32], nonce: [2; 8], ephemeral: [3; 32], quality: 5, chunk: 64, block: 128, index_per_block: false };
     let a = encode(&blocks, &p);
     let d = decode(&a, &[sk], 64, 128)?;
     if d.files["a"].content != vec![7u8; 300] || !d.files["a"].hash_ok || !d.files["a"].index_ok {
